@@ -736,6 +736,9 @@ inductive Op where
   | aggregate (window : Bool) (a : AggArgs) (rowGroup : List Nat) (ngroups : Nat) (site : Nat)
   | sortT (perm : List Nat)
   | tabSet (j : Nat) (ups : List (Nat × Tag))
+  /-- a public operation the model has no dtype rule for (`unique`, `~`, `eomonth`, `pluck`, `Vector.new`, `list << v`, method
+      proxies …): `step` refuses it, so its real result is judged by the specification alone (truthfulness) -/
+  | opaque
 
 def vecs : List Obj → Option (List AVec)
   | [] => some []
@@ -878,6 +881,7 @@ def nameRule (san : String → Option String) (op : Op) (args : List Sh) : Names
     if empty then .tab [] else .tab (shCols a0 ++ shCols a1)
   | .aggregate _ a _ _ _ => .tab ((aggNames san (shCols a0) a).map some)
   | .sortT _ | .tabSet .. => .tab (shCols a0)
+  | .opaque => .vec none            -- never compared: `step` refuses the operation
 
 /-- number of rows of the value of a program (0 if it is refused) -/
 def rows (ρ : Oracle) (e : Expr) : Nat :=
